@@ -90,6 +90,8 @@ class State:
     self.old = None
     self.loop_depth = 0
     self.inputs = {}
+    self.pending_alts = []
+    self.nofresh = 0
 
   # -- heap
   def alloc(self, obj):
@@ -120,7 +122,7 @@ class State:
 
 class Engine:
   FEAS_TIMEOUT_MS = 400
-  UNROLL_MAX = 70
+  UNROLL_MAX = 5000
 
   def __init__(self, prop=None, repo=None):
     self.prop = prop
@@ -160,9 +162,20 @@ class Engine:
       return b
     feas = []
     for b in (True, False):
-      if cond is None or self.feasible(st, cond if b else z3.Not(cond)):
+      if cond is None or (self.cur is not None and not getattr(self.cur, "feasibility", True)) or self.feasible(
+          st, cond if b else z3.Not(cond)):
         feas.append(b)
-    raise NeedDecision(feas)
+    if not feas:
+      raise Infeasible()
+    # continue in place with the first feasible branch; the other one is queued for a later run
+    b = feas[0]
+    if len(feas) == 2:
+      st.pending_alts.append(list(st.decisions[:st.dptr]) + [feas[1]])
+    st.decisions = list(st.decisions[:st.dptr]) + [b]
+    st.dptr += 1
+    if cond is not None:
+      st.assume(cond if b else z3.Not(cond))
+    return b
 
   def feasible(self, st, extra=None):
     self.stats["feas_checks"] += 1
@@ -182,8 +195,14 @@ class Engine:
       return
     if isinstance(goal, bool):
       goal = z3.BoolVal(goal)
-    hyps = list(st.pc)
-    key = (label, kind, goal.sexpr(), tuple(h.sexpr() for h in hyps))
+    hyps = []
+    seen_h = set()
+    for h in st.pc:
+      hid = h.get_id()
+      if hid not in seen_h:
+        seen_h.add(hid)
+        hyps.append(h)
+    key = (label, kind, goal.get_id(), tuple(sorted(seen_h)))
     if key in self._seen:
       return
     self._seen.add(key)
@@ -703,8 +722,9 @@ class Engine:
     # general divisor: q, r with x == q*y + r and r in [0,y) resp. (y,0]
     yy = to_z3(y)
     xx = to_z3(x)
-    pos = self.known(st, yy > 0)
+    pos = st.nofresh or self.known(st, yy > 0)
     if pos:
+      # (inside quantifier bodies no fresh symbols are introduced: z3's div/mod, exact for positive divisors)
       return xx / yy, xx % yy
     q = z3.Int(V.fresh_name("q"))
     r = z3.Int(V.fresh_name("r"))
@@ -743,6 +763,9 @@ class Engine:
         m = self.find_method(o.cls, attr)
         if m is not None:
           return FuncV("method", m[1], node=m[2], selfv=base, module=m[0])
+        r = self.class_attr(st, o.cls, attr)
+        if r is not NotImplemented:
+          return r
         r = self.th.rec_attr(self, st, base, o, attr)
         if r is not None:
           return r
@@ -773,9 +796,29 @@ class Engine:
       raise Unsupported(f"class attribute {base.name}.{attr}")
     if isinstance(base, Opaque):
       return Opaque(f"{base.why}.{attr}")
+    if isinstance(base, self.th.EnumV):
+      if attr in base.members:
+        return base.members[attr]
+      raise Unsupported(f"enum member {base.name}.{attr}")
     if base is None:
       self.implicit(st, "AttributeError", False, node, f"None.{attr}")
     return FuncV("builtin_method", attr, selfv=base)
+
+  def class_attr(self, st, cls, attr):
+    """Class-level constant (e.g. ROCAKeyDetector.PRIMES) of a repo class, evaluated from the working tree."""
+    if cls is None or "::" not in cls:
+      return NotImplemented
+    rel, cname = cls.split("::")
+    mod = source.load(rel, self.repo)
+    key = (cname, attr)
+    if key in mod.class_assigns:
+      fr = Frame({}, None, mod)
+      st.frames.append(fr)
+      try:
+        return self.ev(mod.class_assigns[key], st)
+      finally:
+        st.frames.pop()
+    return NotImplemented
 
   def find_method(self, cls, name, _depth=0):
     """Finds method `name` of repo class `cls` ('relpath::Class'), following base classes within the repo."""
@@ -950,7 +993,8 @@ class Engine:
     c = C.REGISTRY.get(target)
     is_method = f.kind == "method"
     if c is None or c.inline:
-      if c is None and not self.th.may_inline(f):
+      conc = all(isinstance(a, (int, str, bytes, bool, float, tuple)) or a is None for a in list(args) + list(kwargs.values()))
+      if c is None and not conc and not self.th.may_inline(f):
         self.abstracted.add(f"call of {target} without contract (treated as opaque pure call)")
         return Opaque(f"{target}()")
       return self.inline(st, f, ([f.selfv] if is_method else []) + list(args), kwargs, node)
@@ -970,6 +1014,17 @@ class Engine:
       env["self"] = selfv
     if c.assumed:
       self.assumed_contracts.add(c.target)
+    if st.nofresh:
+      if c.returns_expr is None:
+        raise Unsupported(f"call of {c.qual} inside a comprehension/quantifier needs a functional contract (returns_expr)")
+      fr = Frame(env, None, f.module, fname=c.qual)
+      st.frames.append(fr)
+      st.spec_depth += 1
+      try:
+        return self.ev(ast.parse(c.returns_expr, mode="eval").body, st)
+      finally:
+        st.spec_depth -= 1
+        st.frames.pop()
     fr = Frame(env, None, f.module, fname=c.qual)
     st.frames.append(fr)
     st.spec_depth += 1
@@ -1006,7 +1061,7 @@ class Engine:
     prev_old = st.old
     st.old = (old_env, old_snap)
     try:
-      for cl in c.ensures:
+      for cl in (c.caller_ensures if c.caller_ensures is not None else c.ensures + c.defines):
         st.assume(self.truthy(st, self.ev(cl.node, st)))
       for gname, expr in c.effects:
         st.ghost[gname] = self.ev(ast.parse(expr, mode="eval").body, st)
@@ -1014,7 +1069,47 @@ class Engine:
       st.old = prev_old
       st.spec_depth -= 1
       st.frames.pop()
+    hooks = self.cur.on_call.get(c.target) if (self.cur is not None and len(st.frames) == 1) else None
+    if hooks:
+      pnames = [a.arg for a in f.node.args.args if a.arg != "self"]
+      argv = tuple(env.get(n) for n in pnames)
+      self.run_ghost(st, hooks, {"args": argv, "result": result}, f"{self.cur.qual}/at-call:{c.qual}@L{line}", line)
     return result
+
+  def run_ghost(self, st, stmts, extra, label, line):
+    """Executes ghost statements in the current function frame: `x = e`, `assert e` (obligation), `hint e`."""
+    env = st.frame.env
+    saved = {k: env.get(k, None) for k in extra}
+    had = {k: (k in env) for k in extra}
+    env.update(extra)
+    st.spec_depth += 1
+    try:
+      for text in stmts:
+        text = " ".join(text.split())
+        if text.startswith("assert "):
+          body = text[7:]
+          props = None
+          if body.startswith("["):   # assert [C01] expr
+            tag, _, body = body[1:].partition("]")
+            props = set(t.strip() for t in tag.split(","))
+            if self.prop is not None and self.prop not in props:
+              continue
+          g = self.truthy(st, self.ev(ast.parse(body.strip(), mode="eval").body, st))
+          self.emit(st, "call-site", f"{label}:{body.strip()}", g, clause=body.strip(), line=line, props=props)
+          st.assume(g)
+        elif text.startswith("let ") or "=" in text.split("(")[0]:
+          t2 = text[4:] if text.startswith("let ") else text
+          name, _, expr = t2.partition("=")
+          env[name.strip()] = self.ev(ast.parse(expr.strip(), mode="eval").body, st)
+        else:
+          self.truthy(st, self.ev(ast.parse(text, mode="eval").body, st))   # theory-instantiating call (euclid...)
+    finally:
+      st.spec_depth -= 1
+      for k in extra:
+        if had[k]:
+          env[k] = saved[k]
+        else:
+          env.pop(k, None)
 
   def fresh_result(self, st, c, env, f):
     t = parse_type(c.returns)
@@ -1096,13 +1191,30 @@ class Engine:
       return Opt(z3.Bool(V.fresh_name(name + ".isnone")), self.fresh_heap(st, t[1], name))
     if isinstance(t, tuple) and t[0] == "tuple" and any(self._needs_heap(x) for x in t[1]):
       return tuple(self.fresh_heap(st, ti, f"{name}.{i}") for i, ti in enumerate(t[1]))
+    if isinstance(t, tuple) and t[0] == "obj":
+      c = C.REGISTRY.get(t[1] + ".__fields__")
+      fields = {}
+      if c is not None:
+        for fname, ft in c.self_fields.items():
+          fields[fname] = self.fresh_heap(st, ft, f"{name}.{fname}")
+      return st.alloc(HRec(t[1], fields))
     if isinstance(t, tuple) and t[0] == "rec":
       return self.th.fresh_rec(self, st, t, name)
     if isinstance(t, tuple) and t[0] == "opt" and isinstance(t[1], tuple) and t[1][0] == "rec":
       return Opt(z3.Bool(V.fresh_name(name + ".isnone")), self.th.fresh_rec(self, st, t[1], name))
     v = V.fresh(t, name)
     st.assume(*V.type_constraints(t, v))
+    self._bytes_wf(st, v)
     return v
+
+  def _bytes_wf(self, st, v):
+    if isinstance(v, BytesV) and is_sym(v.val):
+      st.assume(v.val < self.th.t_pow2(self, st, 8 * v.length))
+    elif isinstance(v, tuple):
+      for x in v:
+        self._bytes_wf(st, x)
+    elif isinstance(v, Opt):
+      self._bytes_wf(st, v.val)
 
   def _needs_heap(self, t):
     t = parse_type(t)
@@ -1117,7 +1229,7 @@ class Engine:
 
   def coerce_heap(self, st, t, v):
     t = parse_type(t)
-    if isinstance(t, tuple) and t[0] in ("list", "dict", "rec", "ref", "elem"):
+    if isinstance(t, tuple) and t[0] in ("list", "dict", "rec", "ref", "elem", "obj"):
       return v
     if isinstance(t, tuple) and t[0] == "opt" and isinstance(t[1], tuple) and t[1][0] in ("elem", "rec", "list"):
       if v is None:
@@ -1560,14 +1672,13 @@ class Engine:
   def st_While(self, s, st):
     ordinal = self.loop_ordinal(s)
     lc = self.cur.loops.get(ordinal) if (self.cur and ordinal is not None and len(st.frames) == 1) else None
+    declared = lc is not None
     if lc is None:
-      lc = dict(invariant=[], variant=None, types={}, cut=False, keep=set(), unroll=False, body_end=[], at_exit=[])
-      if len(st.frames) == 1 and not self._is_concrete_while(s, st):
-        pass
+      lc = dict(invariant=[], variant=None, types={}, cut=False, keep=set(), unroll=False, body_end=[], at_exit=[], head=[])
     if lc.get("unroll"):
       return self.unroll_while(s, st)
-    # try concrete execution first: if the condition stays concrete we simply interpret
-    if not lc["invariant"] and not lc["cut"]:
+    # no loop contract: try concrete execution first (if the condition stays concrete we simply interpret)
+    if not declared:
       done = self.try_concrete_while(s, st)
       if done:
         return
@@ -1576,6 +1687,8 @@ class Engine:
     self.check_invs(st, lc, {}, "inv-entry", label, line)
     self.havoc_loop(st, s.body, lc)
     self.assume_invs(st, lc, {})
+    if lc.get("head"):
+      self.run_ghost(st, lc["head"], {}, label + "/head", line)
     pre = self.pre_overlay(st, s.body)
     var0 = self.eval_spec_expr(st, lc["variant"], {}) if lc.get("variant") else None
     c = self.truthy(st, self.ev(s.test, st))
@@ -1602,7 +1715,7 @@ class Engine:
   def pre_overlay(self, st, body):
     """Values of the loop-modified variables at the head of the analysed iteration, as pre_<name>."""
     ov = {}
-    for n in self.assigned_names(body):
+    for n in self.assigned_names(body) | {k for k in st.frame.env if k.startswith("g_")}:
       if n in st.frame.env:
         ov["pre_" + n] = st.frame.env[n]
     return ov
@@ -1682,7 +1795,7 @@ class Engine:
       st.assume(g)
 
   def havoc_loop(self, st, body, lc, extra_names=()):
-    names = self.assigned_names(body) | set(extra_names)
+    names = self.assigned_names(body) | set(extra_names) | {k for k in st.frame.env if k.startswith("g_")}
     roots = self.mutated_roots(body, st)
     env = st.frame.env
     done_ptrs = set()
@@ -1744,6 +1857,10 @@ class Engine:
     it = self.ev(s.iter, st)
     seq = self.th.as_iterable(self, st, it, s)
     # seq: ("concrete", [values]) | ("range", lo, hi, step) | ("slist", HList) | ("enumerate", inner, start) | ...
+    if lc and lc["unroll"] and seq[0] == "range" and isinstance(seq[3], int):
+      lo = self.th.concretize(self, st, seq[1])
+      hi = self.th.concretize(self, st, seq[2])
+      seq = ("concrete", list(range(lo, hi, seq[3])))
     force_cut = bool(lc and (lc["cut"] or lc["invariant"]))
     if seq[0] == "concrete" and not force_cut:
       if len(seq[1]) > self.UNROLL_MAX and not (lc and lc["unroll"]):
@@ -1762,7 +1879,7 @@ class Engine:
         self.exec_block(s.orelse, st)
       return
     if lc is None:
-      lc = dict(invariant=[], variant=None, types={}, cut=True, keep=set(), unroll=False, body_end=[], at_exit=[])
+      lc = dict(invariant=[], variant=None, types={}, cut=True, keep=set(), unroll=False, body_end=[], at_exit=[], head=[])
     label = f"{self.cur.qual}/loop{ordinal}"
     line = s.lineno
     n_items = self.th.iter_len(self, st, seq)          # int term: number of iterations
@@ -1776,6 +1893,9 @@ class Engine:
       st.assume(k >= 0, k < to_z3(n_items))
       self.assume_invs(st, lc, self.th.iter_overlay(self, st, seq, k, s.target))
       self.assign(st, s.target, self.th.iter_item(self, st, seq, k, s))
+      st.frame.env[f"_i{ordinal}"] = k      # ghost: iteration index of loop <ordinal>, visible to on_call hooks
+      if lc.get("head"):
+        self.run_ghost(st, lc["head"], {"_i": k}, label + "/head", line)
       pre = self.pre_overlay(st, s.body)
       try:
         try:
@@ -1869,7 +1989,10 @@ class Engine:
       V._ctr = itertools.count()
       st = State(dec)
       try:
-        self.run_path(c, fn, module, body, st, covered)
+        try:
+          self.run_path(c, fn, module, body, st, covered)
+        finally:
+          pending.extend(st.pending_alts)
       except NeedDecision as nd:
         for b in nd.feasible:
           pending.append(dec + [b])
@@ -1890,6 +2013,25 @@ class Engine:
     env = {}
     cls = None
     for n in names:
+      if n == "self" and "." in c.qual and c.self_init is not None:
+        cls = f"{c.relpath}::{c.qual.split('.')[0]}"
+        cache = getattr(self, "_self_cache", None)
+        if cache is not None and cache[0] == c.target and not st.heap:
+          st.heap = {a: o.clone() for a, o in cache[1].items()}
+          st.next_addr = cache[2]
+          env["self"] = cache[3]
+          continue
+        fr0 = Frame({}, None, module, cls=cls, fname=c.qual + "/<construct self>")
+        st.frames.append(fr0)
+        npc, nd = len(st.pc), st.dptr
+        try:
+          fv = FuncV("class", c.qual.split(".")[0], node=module.classes[c.qual.split(".")[0]], module=module)
+          env["self"] = self.th.construct(self, st, fv, list(c.self_init), {}, None)
+        finally:
+          st.frames.pop()
+        if len(st.pc) == npc and st.dptr == nd:   # construction was concrete and deterministic: reuse on later paths
+          self._self_cache = (c.target, {a: o.clone() for a, o in st.heap.items()}, st.next_addr, env["self"])
+        continue
       if n == "self" and "." in c.qual:
         cls = f"{c.relpath}::{c.qual.split('.')[0]}"
         fields = {}
@@ -1912,10 +2054,12 @@ class Engine:
         st.ghost[g] = self.ev(ast.parse(expr, mode="eval").body, st)
       for cl in c.requires:
         st.assume(self.truthy(st, self.ev(cl.node, st)))
-      for cl in c.hints:
+      for cl in c.hints + c.defines:
         st.assume(self.truthy(st, self.ev(cl.node, st)))
     finally:
       st.spec_depth -= 1
+    if c.entry_ghost:
+      self.run_ghost(st, c.entry_ghost, {}, f"{c.qual}/entry", 0)
     return env
 
   def record_input(self, st, name, v):
